@@ -13,7 +13,7 @@ Definition batching (c : config) (tmpl : list limiter) (args : list arg) :=
 (* The invocations actually made are the batches, in order, with status 0/123 (all input
    processed) or 1 (an argument cannot be placed), as long as no child outcome is fatal. *)
 Theorem C04_invocations_are_batches : forall c tmpl args outs, c_replace c = false ->     (* -I is C20's: there a line is run when it is read *)
-  charge_init (limiters0 c) (c_init c) = Some tmpl -> really_runs c args ->
+  charge_init (limiters0 c) (charged c) = Some tmpl -> really_runs c args ->
   let bs := batches_of (batching c tmpl args) in
   (length bs <= length outs)%nat -> forallb nonfatal (firstn (length bs) outs) = true ->
   xargs_run c args false outs =
@@ -23,19 +23,21 @@ Theorem C04_invocations_are_batches : forall c tmpl args outs, c_replace c = fal
 Proof. intros c tmpl args outs H0 H1 H2. exact (run_no_fatal c tmpl H1 args outs H0 H2). Qed.
 Print Assumptions C04_invocations_are_batches.
 
-(* Nothing is lost to an input error either: when the reader fails after the arguments [args] (an unterminated quote, a read
-   error), the invocations made are exactly those of the run on [args] alone under -r - every complete argument is delivered, in
-   the same batches - and only then is the error reported (status 1: C19_input_error). *)
-Theorem C04_input_error_keeps_arguments : forall c tmpl args ls cur p st,
-  snd (process_x c tmpl ls cur p args true st) = snd (process_x (with_r c) tmpl ls cur p args false st).
+(* An input error (an unterminated quote, a read error after the arguments [args]) is outside the property's quantifier - such
+   an input has no argument sequence - but what the run has done by then is still accounted for: the invocations made are
+   those of the run on [args] alone under -r, short of at most one, the batch that was still being collected (the
+   repository's test xargs_unterminated_quote pins that this batch is not run).  Status 1: C19_input_error. *)
+Theorem C04_input_error_runs_whole_batches : forall c tmpl args ls cur p st, exists tail,
+  snd (process_x (with_r c) tmpl ls cur p args false st) = snd (process_x c tmpl ls cur p args true st) ++ tail /\
+  (length tail <= 1)%nat.
 Proof. exact input_error_invocations. Qed.
-Print Assumptions C04_input_error_keeps_arguments.
+Print Assumptions C04_input_error_runs_whole_batches.
 
 (* Lossless and ordered; every batch within all limits at once; maximal; empty input;
    an argument that cannot be placed ends the run (exit 1 by the theorem above) after a
    greedy batching of a prefix - it is never truncated, split or dropped silently. *)
 Theorem C04_batching : forall c tmpl args,
-  charge_init (limiters0 c) (c_init c) = Some tmpl -> Forall noninit args ->
+  charge_init (limiters0 c) (charged c) = Some tmpl -> Forall noninit args ->
   match batching c tmpl args with
   | Ran bs => concat bs = args /\ (args <> [] -> greedy_lim (within_limits c) bs) /\
               (args = [] -> bs = if c_r c then [] else [[]])
@@ -49,15 +51,15 @@ Print Assumptions C04_batching.
 
 (* The limiter state at the start of every batch is the template: the command and the initial
    arguments are charged exactly once per invocation (no state leaks from one batch to the next);
-   it is what makes [within_limits] mention c_init once. *)
+   it is what makes [within_limits] mention them once ([charged c]: c_init c - with -I, without the replacement string). *)
 Theorem C04_template : forall c tmpl,
-  charge_init (limiters0 c) (c_init c) = Some tmpl -> tmpl = map (advi (c_init c)) (limiters0 c).
+  charge_init (limiters0 c) (charged c) = Some tmpl -> tmpl = map (advi (charged c)) (limiters0 c).
 Proof. exact charge_init_spec_top. Qed.
 Print Assumptions C04_template.
 
 (* command and initial arguments too large: nothing is run, status 1 *)
 Theorem C04_base_too_large : forall c args ie outs,
-  charge_init (limiters0 c) (c_init c) = None -> xargs_run c args ie outs = (1, []).
+  charge_init (limiters0 c) (charged c) = None -> xargs_run c args ie outs = (1, []).
 Proof. exact base_too_large. Qed.
 Print Assumptions C04_base_too_large.
 
@@ -70,3 +72,8 @@ Example C04_witness :
   = (123, [[mk 0 3 Soft; mk 1 3 Hard]; [mk 2 5 Soft; mk 3 1 Hard]]) /\
   fst (xargs_run c [mk 0 3 Soft; mk 1 30 Hard] false []) = 1.
 Proof. vm_compute. split; reflexivity. Qed.
+
+(* without -I the command and the initial arguments are charged as they are written *)
+Theorem C04_template_charged_as_written : forall c, c_replace c = false -> charged c = c_init c.
+Proof. intros c H. unfold charged. now rewrite H. Qed.
+Print Assumptions C04_template_charged_as_written.
